@@ -23,3 +23,9 @@ def oracle(c, o):
     if suffix in ALLOWED or suffix in ("raises", "harness-exception"):
         return r
     return None
+
+
+def generated(tier):
+    """source-derived obligations (G4 formulas): regenerated from /repo's current source text on every run"""
+    from ..translate.tables import obligations
+    return obligations("C01")
